@@ -307,6 +307,20 @@ class Case:
         if isinstance(arr, np.ndarray):
             self.kept.append((arr, arr.copy(), where))
 
+    def keep_info(self, info, where: str):
+        """the same for the info dict a step / unstep returned: the report of step t names the coalition of step t, also when it is
+        read after step t + 1"""
+        kept = getattr(self, "kept_infos", [])
+        for old, old_c, old_where in kept[-6:]:
+            if old.get("chosen_coalition") != old_c:
+                self.violate(f"the info returned by an earlier {old_where} reports another coalition after a later call ({where}): "
+                             "the reports of one episode share an object", "info-aliasing")
+                self.kept_infos = []
+                return
+        if isinstance(info, dict) and "chosen_coalition" in info:
+            kept.append((info, info["chosen_coalition"], where))
+        self.kept_infos = kept
+
     def violate(self, what: str, site: str, extra=None):
         self.res.violation(what, self.replay(extra), key=f"{self.prop}:{site}")
         self.dead = True          # the abstract state may have diverged: do not pile up consequences
@@ -353,6 +367,7 @@ class Case:
             self.lin = new_top
         self.env, self.genobj = new_env, gen
         self.kept = []                      # observations of the old object are no longer this environment's business
+        self.kept_infos = []
         self.res.count(f"op:transfer:{how}")
         self.check_state("transfer")
         if self.linear and self.lin is not None:
@@ -613,6 +628,7 @@ class Case:
                 out = (env.unstep if un else env.step)(a)
             ans = self.show_out(out)
             self.keep_obs(out[0], nm)
+            self.keep_info(out[4], nm)
             if before_c07 is not None:
                 # C07 on the environment: whatever happened before (un-reveals in any order included), revealing a true value
                 # widens no interval and lowers no reward (= raises no gap)
@@ -812,6 +828,7 @@ class Case:
                 self.res.count(f"size-form-refused:{form_name}")
                 out = lin.step(k)
             cid = int(out[4]["chosen_coalition"])
+            self.keep_info(out[4], "linstep")
             chosen_idx = self.explorable.index(cid) if cid in self.explorable else 0
             self.register(K | {cid})
             ans = self.lin_answer(fl(out[0]), f" r={rs(out[1])} c={cid}")
